@@ -268,6 +268,44 @@ def decode_case(cls, mutation):
     return h
 
 
+def cross_class_case(first, second):
+    """Encoding a block of one class must not change what a separately created block of
+    another class encodes (the same label text is used at the 256-byte width by one and at
+    the 32-byte width by the other)."""
+    TEXT = "1"
+
+    def mk(I, kind):
+        if kind == "optical":
+            m = I.mod("tdfOpticalSystem")
+            b = m.OpticalSetupBlock()
+            b.channels.append(m.OpticalChannelData(1, TEXT, "", TEXT, I.mod("tdfTypes").CameraViewPort(I.np.array([0, 0], dtype="<i4"), I.np.array([640, 480], dtype="<i4"))))
+            return b
+        if kind == "events":
+            m = I.mod("tdfEvents")
+            b = m.TemporalEventsData()
+            b.events.append(m.Event(TEXT, I.np.array([1.0], dtype="<f4"), m.EventsDataType(0)))
+            b.events.append(m.Event("", I.np.array([], dtype="<f4"), m.EventsDataType(1)))
+            return b
+        m = I.mod("tdfForcePlatformsCalibration")
+        b = m.ForcePlatformsCalibrationDataBlock()
+        b.add_platform(m.ForcePlatformInfo(TEXT, I.np.zeros((2,), dtype="<f4"), I.np.zeros((4, 3), dtype="<f4")))
+        return b
+
+    def h(I):
+        I.fresh_modules()
+        alone = B.encode(I, mk(I, second))  # what the second block encodes to on its own
+        I.fresh_modules()
+        a = mk(I, first)
+        ea = B.encode(I, a)
+        b = mk(I, second)
+        eb = B.encode(I, b)
+        I.observe("enc", [len(ea), len(eb)])
+        I.prove(f"C20.{second}.encoding_independent_of_other_instances", eb == alone, f"after a {first} block was encoded in the same process")
+        I.prove(f"C20.{second}.encoding_independent_of_other_instances", len(eb) == b.nBytes, "size")
+        I.goal("done")
+    return h
+
+
 def populated_case(cls, mutation):
     """A and B each hold their own item; A is mutated; B must not notice."""
     def h(I):
@@ -359,4 +397,6 @@ def instances(tier):
             out.append(Instance(f"{cls}.decode.{m}", decode_case(cls, m), goals=["done"]))
     for m in ["add", "edit_nested"]:
         out.append(Instance(f"calib.decode.{m}", decode_case("calib", m), goals=["done"]))
+    for first, second in (("events", "optical"), ("optical", "events"), ("fpcal", "optical"), ("optical", "fpcal")):
+        out.append(Instance(f"cross.{first}.then.{second}", cross_class_case(first, second), goals=["done"]))
     return out
